@@ -1152,6 +1152,45 @@ func leafPool(rels []string) []rw {
 	return pool
 }
 
+// richDef: one definition of the cycle-rich family.
+func richDef(rng *rand.Rand, rels []string) rw {
+	direct := func() rw {
+		var restr []string
+		switch rng.Intn(4) {
+		case 0:
+			restr = append(restr, "user")
+		case 1:
+			restr = append(restr, "user:*")
+		}
+		perm := rng.Perm(len(rels))
+		n := 1 + rng.Intn(2)
+		for _, i := range perm[:n] {
+			restr = append(restr, "doc#"+rels[i])
+		}
+		return rw{kind: 'd', restr: restr}
+	}
+	leaf := func() rw {
+		r := rels[rng.Intn(len(rels))]
+		if rng.Intn(2) == 0 {
+			return rw{kind: 'c', rel: r}
+		}
+		return rw{kind: 't', rel: r, ts: "parent"}
+	}
+	switch rng.Intn(5) {
+	case 0, 1:
+		return direct()
+	case 2:
+		kids := []rw{direct(), leaf()}
+		if rng.Intn(2) == 0 {
+			kids = append(kids, leaf())
+		}
+		return rw{op: "or", kids: kids}
+	case 3:
+		return rw{op: "or", kids: []rw{leaf(), leaf(), {op: "or", kids: []rw{leaf(), leaf()}}}}
+	}
+	return rw{op: "or", kids: []rw{leaf(), leaf()}}
+}
+
 func defPool(rels []string) []rw {
 	leaves := leafPool(rels)
 	pool := append([]rw{}, leaves...)
@@ -1233,6 +1272,24 @@ func TestBoundedB4(t *testing.T) {
 	for _, jb := range jobs {
 		g := gmodel{parents: parentsOpts[jb.p], rels: map[string]rw{"a": pool[jb.i], "b": pool[jb.j]}}
 		g.id = fmt.Sprintf("a: %s; b: %s; parent: %v", g.rels["a"].text(), g.rels["b"].text(), g.parents)
+		b.checkModel(g, maxOrders, rng)
+	}
+	// cycle-rich family: four relations whose definitions are direct usersets of each other, computed usersets and
+	// tuple-to-usersets combined by unions (one level of nesting) - nested and interlocking tuple cycles, nodes reached a
+	// second time while several cycles are open (where the weight patching and the wildcard propagation live)
+	nRich := 600
+	if thorough() {
+		nRich = 20000
+	}
+	rels4 := []string{"a", "b", "c", "d"}
+	for k := 0; k < nRich; k++ {
+		g := gmodel{parents: [][]string{{"doc"}, {"doc"}, {"doc", "folder"}}[rng.Intn(3)], rels: map[string]rw{}}
+		var parts []string
+		for _, r := range rels4 {
+			g.rels[r] = richDef(rng, rels4)
+			parts = append(parts, r+": "+g.rels[r].text())
+		}
+		g.id = "rich " + strings.Join(parts, "; ") + fmt.Sprintf("; parent: %v", g.parents)
 		b.checkModel(g, maxOrders, rng)
 	}
 	if thorough() {
